@@ -275,6 +275,29 @@ def main(argv):
                     if expect not in got or ("INCLUDE" in got) != ("INCLUDE" in expect):
                         fail("include#first_matching_directory_wins_per_parse", dict(main=msrc, include_dirs=["A" if x == da else "B" if x == db else "C" for x in dirs]),
                              dict(printed=got, expected_line=expect))
+            # reader options are the same inside the included file (every option the reader constructor takes)
+            from fparser.two.utils import walk as _walk
+            body2 = ["  integer :: i", "  ! a note", "  !$ i = 3", "  !$omp barrier", "  i = 1"]
+            with tempfile.TemporaryDirectory() as dd:
+                for opts in ({}, dict(ignore_comments=False), dict(include_omp_conditional_lines=True), dict(process_directives=True),
+                             dict(ignore_comments=False, include_omp_conditional_lines=True), dict(process_directives=True, include_omp_conditional_lines=True)):
+                    full2 = "program p\n" + "\n".join(body2) + "\nend program p\n"
+
+                    def shape(src):
+                        tree = ParserFactory().create(std="f2008")(FortranStringReader(src, include_dirs=[dd], **opts))
+                        return str(tree), [type(n).__name__ for n in _walk(tree)]
+                    want2 = shape(full2)
+                    for a in range(1, len(body2)):
+                        for b in range(a + 1, len(body2) + 1):
+                            open(os.path.join(dd, "opt.inc"), "w").write("\n".join(body2[a:b]) + "\n")
+                            main = "program p\n" + "\n".join(body2[:a] + ["  include 'opt.inc'"] + body2[b:]) + "\nend program p\n"
+                            cases += 1
+                            try:
+                                got2 = shape(main)
+                            except BaseException as e:  # noqa
+                                got2 = ("%s: %s" % (type(e).__name__, str(e)[:150]), [])
+                            if got2 != want2:
+                                fail("include#same_reader_options_inside", dict(main=main, include=body2[a:b], options=opts), dict(printed=got2[0], expected=want2[0]))
             src = "program p\n  integer :: i\n  include 'nowhere.inc'\n  i = 1\nend program p\n"
             cases += 1
             t = parse(src)
@@ -309,8 +332,34 @@ def main(argv):
             "repeat_assign": lambda n: "program p\n" + "x = x + 1\n" * n + "end program p\n",
             "repeat_loop": lambda n: "program p\n" + "do i = 1, 2\nx = 1\nend do\n" * n + "end program p\n",
         }
-        sizes = [2, 4, 8] if tier == "quick" else [2, 4, 8, 16]
+        def assign(e):
+            return "program p\nx = %s\nend program p\n" % e
+
+        def nest(fmt):
+            def gen(n):
+                e = "a"
+                for k in range(n):
+                    e = fmt % dict(e=e, k=k)
+                return assign(e)
+            return gen
+        # parentheses nested around every binary operator level (left- and right-nested), and call / subscript nesting
+        for op in ["+", "*", "**", "//", "==", ".lt.", ".and.", ".or.", ".eqv.", ".myop."]:
+            fam["parens_left_" + op] = nest("(%%(e)s %s b%%(k)d)" % op)
+            fam["parens_right_" + op] = nest("(b%%(k)d %s %%(e)s)" % op)
+        fam["parens_unary_not"] = nest("(.not. %(e)s)")
+        fam["parens_unary_minus"] = nest("(- %(e)s)")
+        fam["nested_calls"] = nest("f(%(e)s)")
+        fam["nested_subscripts"] = nest("b(%(e)s + 1)")
+        fam["chain_and"] = lambda n: assign(" .and. ".join("b%d" % k for k in range(n + 1)))
+        fam["chain_plus"] = lambda n: assign(" + ".join("b%d" % k for k in range(n + 1)))
+        fam["chain_concat"] = lambda n: assign(" // ".join("b%d" % k for k in range(n + 1)))
+        sizes0 = [2, 4, 8] if tier == "quick" else [2, 4, 8, 16]
         for name, gen in fam.items():
+            sizes = sizes0
+            if name.startswith(("parens_", "chain_")):
+                sizes = [3, 6, 12] if tier == "quick" else [3, 6, 12, 24]
+            elif name.startswith("nested_") and name not in ("nested_if", "nested_do"):
+                sizes = [2, 4, 8]               # known to be exponential: larger sizes only cost time
             counts = [count(gen(n)) for n in sizes]
             cases += len(sizes)
             samples.append(dict(family=name, sizes=sizes, constructor_calls=counts))
